@@ -5,15 +5,20 @@ package e2e
 
 import (
 	"context"
+	"errors"
 	"fmt"
 	"os"
 	"runtime"
+	"strings"
 	"testing"
 	"time"
 
+	"connectrpc.com/connect"
+	pbssinternal "github.com/streamingfast/substreams/pb/sf/substreams/intern/v2"
 	"github.com/streamingfast/substreams/pipeline/exec"
 	"google.golang.org/grpc/codes"
 	"google.golang.org/grpc/status"
+	"google.golang.org/protobuf/proto"
 	"pgregory.net/rapid"
 
 	"verif/ev"
@@ -86,6 +91,7 @@ func checkC17T2(c c17t2Case) (*ev.Failure, c17t2Outcome) {
 	type res struct {
 		err   error
 		panic string
+		pre   string
 	}
 	done := make(chan res, 1)
 	go func() {
@@ -98,7 +104,20 @@ func checkC17T2(c c17t2Case) (*ev.Failure, c17t2Outcome) {
 			}
 			done <- r
 		}()
-		r.err = world.ProcessRangeExported(ctx, cfg, req)
+		// the request comes after two malformed ones on a service that admits one request at a time: requests that are
+		// turned down must not use the service up
+		noModules := proto.Clone(req).(*pbssinternal.ProcessRangeRequest)
+		noModules.Modules = nil
+		noOutput := proto.Clone(req).(*pbssinternal.ProcessRangeRequest)
+		noOutput.OutputModule = ""
+		errs := world.ProcessRangeExportedSeq(ctx, cfg, 1, noModules, noOutput, req)
+		for i, e := range errs[:2] {
+			var ce *connect.Error
+			if !(status.Code(e) == codes.InvalidArgument || (errors.As(e, &ce) && ce.Code() == connect.CodeInvalidArgument)) {
+				r.pre = fmt.Sprintf("malformed request %d (no modules / no output module) answered %v instead of invalid_argument", i, e)
+			}
+		}
+		r.err = errs[2]
 	}()
 	var r res
 	select {
@@ -109,6 +128,12 @@ func checkC17T2(c c17t2Case) (*ev.Failure, c17t2Outcome) {
 	}
 	if r.panic != "" {
 		return ev.Failf("tier2/panic", "ProcessRange (output %s, stage %d of %d, segment %d, segment size %d) panicked: %s", c.Output, c.Stage, o.stages, c.Segment, c.SegSize, r.panic), o
+	}
+	if r.pre != "" {
+		return ev.Failf("tier2/malformed-not-invalid-argument", "%s", r.pre), o
+	}
+	if r.err != nil && status.Code(r.err) == codes.Unavailable && strings.Contains(r.err.Error(), "overloaded") {
+		return ev.Failf("tier2/overloaded-without-load", "the request was sent alone, after two requests that were turned down, to a service that admits one request at a time, and is answered: %v", r.err), o
 	}
 	switch {
 	case r.err == nil:
@@ -129,7 +154,7 @@ func checkC17T2(c c17t2Case) (*ev.Failure, c17t2Outcome) {
 
 func TestC17Tier2(t *testing.T) {
 	r := ev.Get("C17", "Tier2Requests")
-	r.Rule = "rapid: a generated program and a segment-job request (ProcessRangeRequest) as tier1 builds it, with the output module any module of the graph (mappers twice as often), the stage number in {0..4, 7, 2^31, 2^32-1}, the segment number 0 or 1 (one time in ten 2..4 or 9, beyond the chain) and, one time in six, another segment size, handed to the exported Tier2Service.ProcessRange (validation, graph, stores, execution plan, pipeline, error mapping) over the in-process stream; it must return (nil or a status error) without panic within 120 s, and a stage the graph does not have, when rejected, is rejected as invalid_argument; non-trivial = the stage is out of range, or the request was executed (accepted)"
+	r.Rule = "rapid: a generated program and a segment-job request (ProcessRangeRequest) as tier1 builds it, with the output module any module of the graph (mappers twice as often), the stage number in {0..4, 7, 2^31, 2^32-1}, the segment number 0 or 1 (one time in ten 2..4 or 9, beyond the chain) and, one time in six, another segment size, handed to the exported Tier2Service.ProcessRange of a service that admits one request at a time, after two malformed requests (no modules, no output module) that must be answered invalid_argument and must not use the service up (validation, graph, stores, execution plan, pipeline, error mapping) over the in-process stream; it must return (nil or a status error) without panic within 120 s, and a stage the graph does not have, when rejected, is rejected as invalid_argument; non-trivial = the stage is out of range, or the request was executed (accepted)"
 	rapid.Check(t, func(rt *rapid.T) {
 		c := genC17T2(rt)
 		r.Begin(c)
